@@ -1,6 +1,7 @@
 package chaingen
 
 import (
+	"bytes"
 	"testing"
 	"time"
 
@@ -8,6 +9,7 @@ import (
 	"github.com/btcsuite/btcd/btcutil/v2"
 	"github.com/btcsuite/btcd/chaincfg/v2"
 	"github.com/btcsuite/btcd/chainhash/v2"
+	"github.com/btcsuite/btcd/txscript/v2"
 	"github.com/btcsuite/btcd/wire/v2"
 	"github.com/lightninglabs/neutrino"
 
@@ -137,4 +139,57 @@ func TestBlocksAndFilters(t *testing.T) {
 		t.Fatalf("coverage: wit=%d nowit=%d spends=%d", wit, nowit, spends)
 	}
 	t.Logf("blocks with/without witness commitment: %d/%d, spends %d, hashes %d", wit, nowit, spends, g.Hashes)
+}
+
+// TestOpaqueSpendShapes pins which input shapes txscript.ComputePkScript
+// rejects / gets wrong, and that ForceSpend places them.
+func TestOpaqueSpendShapes(t *testing.T) {
+	g := NewGen(Config{Seed: 5, GenesisTime: time.Unix(1_700_000_000, 0), Now: time.Unix(1_702_000_000, 0), WithBlocks: true})
+	tr := g.Extend(g.Genesis, 8, PaceNormal)
+	tip := tr[len(tr)-1]
+	us := g.Utxos(tip)
+	if len(us) < len(OpaqueShapes) {
+		t.Fatalf("only %d utxos", len(us))
+	}
+	for i, sh := range OpaqueShapes {
+		g.ForceSpend(us[i], sh)
+	}
+	n := g.Extend(tip, 1, PaceNormal)[0]
+	for i, sh := range OpaqueShapes {
+		var in *wire.TxIn
+		for _, tx := range n.Block.Transactions[1:] {
+			for _, ti := range tx.TxIn {
+				if ti.PreviousOutPoint == us[i].Op {
+					in = ti
+				}
+			}
+		}
+		if in == nil {
+			t.Fatalf("shape %d: forced spend not in block", sh)
+		}
+		pk, err := txscript.ComputePkScript(in.SignatureScript, in.Witness)
+		switch sh {
+		case SpendKeyPath:
+			if err != nil || bytes.Equal(pk.Script(), us[i].Script) {
+				t.Fatalf("key-path shape: err=%v, script equal=%v", err, err == nil)
+			}
+		default:
+			if err == nil {
+				t.Fatalf("shape %d: ComputePkScript recovered a script", sh)
+			}
+		}
+	}
+	// Default: every input recoverable.
+	for _, b := range tr {
+		pi := 0
+		for _, tx := range b.Block.Transactions[1:] {
+			for _, ti := range tx.TxIn {
+				pk, err := txscript.ComputePkScript(ti.SignatureScript, ti.Witness)
+				if err != nil || !bytes.Equal(pk.Script(), b.PrevScripts[pi]) {
+					t.Fatalf("default input not recoverable: %v", err)
+				}
+				pi++
+			}
+		}
+	}
 }
